@@ -231,7 +231,8 @@ func c11Check(cc *c11Case, st *vfkit.Stats) (v *vfkit.Violation, labels []string
 			return nil, []string{"helper-journal-unreadable"}, false
 		}
 		model = newRtModel()
-		model.pods, model.ctrs, model.seq = j.Model.Pods, j.Model.Ctrs, j.Model.Seq
+		// ids are unique in a real runtime: never reuse the id the killed request may have consumed
+		model.pods, model.ctrs, model.seq = j.Model.Pods, j.Model.Ctrs, j.Model.Seq+100
 		if model.pods == nil {
 			model.pods = map[string]*rtPod{}
 		}
